@@ -18,10 +18,16 @@ TWO_PI = 2 * math.pi
 
 # Non-zero factors for "multiplied by any non-zero constant".  Moderate ones of both signs, the small physical
 # magnitudes +-1e-9 and 1e-11 (their squares 1e-18 / 1e-22 are far below machine epsilon 2.2e-16, so any absolute
-# floor on the squared norm shows up), 1e9, and the extremes 1e-150 / 1e145: the generated fields have
-# 1e-3 <= sum f^2 <= 4.2e7 (at most 4096 cells, |f| <= ~101), so c^2 * sum f^2 stays inside the normal binary64 range
-# (1e-303 .. 4.2e297; 1e150 would reach 4.2e307, too close to the overflow threshold 1.8e308).
-SCALE_FACTORS = [-3.5, 0.5, 1e-9, -1e-9, 1e-11, 1e-150, 1e9, -1e9, 1e145]
+# floor on the squared norm shows up), +-1e9, and the extremes 1e-130 / 1e145.  The generated fields have
+# 1e-3 <= sum f^2 <= 4.2e7 (at most 4096 cells, |f| <= ~101), so c^2 * sum f^2 stays inside the normal binary64 range.
+# Upper end: 1e150 would give up to 4.2e307, too close to the overflow threshold 1.8e308 -> 1e145.
+# Lower end: 1e-150 is NOT usable with a 1e-9 tolerance although c^2 * sum f^2 ~ 1e-300 is still normal: the squares of
+# entries below 1e-4 * max|f| (tanh tails of droplet fields) and the small |F_k|^2 fall below 2.2e-308 / eps ~ 1e-292 and
+# lose bits by gradual underflow; measured on the unchanged tree: structure_factor_mean changes by 3.6e-8 relative and
+# sf by more than 1e-9 (droplets fields on 6x10 and 9x13 cells; reported to the lead as a floating-point limit, not a
+# defect).  With 1e-130 (c^2 = 1e-260) every square that matters at the 1e-9 level (>= 1e-12 of the total) is >= 1e-275,
+# more than thirty orders of magnitude above the subnormal range.
+SCALE_FACTORS = [-3.5, 0.5, 1e-9, -1e-9, 1e-11, 1e-130, 1e9, -1e9, 1e145]
 POSITIVE_SCALE_FACTORS = [c for c in SCALE_FACTORS if c > 0]
 
 
